@@ -85,6 +85,7 @@ enum Stop {
     ExitProc,
     ResumeSame,
     ResumeNext,
+    ResumeTo(String),
 }
 
 type R<T> = Result<T, Stop>;
@@ -518,6 +519,16 @@ impl<'a> Machine<'a> {
                 let v = self.eval(&args[0], path)?;
                 Ok(Val::S(v.str().to_ascii_lowercase()))
             }
+            "LEFT$" => {
+                let v = self.eval(&args[0], path)?;
+                let n = self.eval(&args[1], path)?;
+                let k = self.round_operand(n.num(), path)?;
+                if k < 0 {
+                    self.feat("illegal-function-call");
+                    return self.err(5, path);
+                }
+                Ok(Val::S(v.str().chars().take(k as usize).collect()))
+            }
             "LBOUND" | "UBOUND" => {
                 let Expr::Load(l) = &args[0] else { panic!("refsem: LBOUND of non-variable") };
                 let (fi, ci) = self.locate(l.var);
@@ -802,12 +813,13 @@ impl<'a> Machine<'a> {
                             self.feat("resume-next");
                             return Ok(());
                         }
-                        Err(Stop::Goto(l)) => {
-                            // RESUME label
+                        Err(Stop::ResumeTo(l)) => {
+                            // RESUME label: the handler ends, control continues at the label
                             self.err_code = 0;
                             self.feat("resume-label");
                             return Err(Stop::Goto(l));
                         }
+                        Err(Stop::Goto(l)) => panic!("refsem: GOTO {} escaped an error handler", l),
                         Ok(()) => return Err(Stop::End),
                         Err(other) => return Err(other),
                     }
@@ -914,7 +926,16 @@ impl<'a> Machine<'a> {
                         break;
                     }
                     self.feat("loop-iterated");
-                    self.run_block(body, path, "b")?;
+                    match self.run_block(body, path, "b") {
+                        Ok(()) => {}
+                        Err(stop) => {
+                            if matches!(stop, Stop::Goto(_) | Stop::ExitProc) {
+                                // known finding: the implementation skips this loop's PopRegisters
+                                self.triggers.insert("jump-out-of-for-leaves-register-frame");
+                            }
+                            return Err(stop);
+                        }
+                    }
                     // increment: counter + step, converted to the counter's type
                     let cur = self.load(var, path)?;
                     let sum = match self.binop(BinOp::Add, cur, Val::N(step_v.clone()), path) {
@@ -1045,6 +1066,9 @@ impl<'a> Machine<'a> {
                 if self.gosub_depth >= 2 {
                     self.feat("gosub-nested");
                 }
+                if self.gosub_depth > 60 {
+                    return undet("reference GOSUB depth limit (runaway GOSUB without RETURN)");
+                }
                 let r = if self.frames.len() == 1 { self.run_from_label_main(l) } else { self.run_from_label_proc(l) };
                 match r {
                     Err(Stop::Return) => {
@@ -1083,7 +1107,7 @@ impl<'a> Machine<'a> {
                     self.feat("resume-without-error");
                     return self.err(20, path);
                 }
-                Err(Stop::Goto(l.clone()))
+                Err(Stop::ResumeTo(l.clone()))
             }
             Stmt::CallSub(p, args) => self.call(*p, args, path).map(|_| ()),
             Stmt::Dim(d) => {
@@ -1253,7 +1277,7 @@ pub fn run(prog: &Program, budget: u64) -> Outcome {
         Err(Stop::Goto(l)) => panic!("refsem: GOTO to unknown label {}", l),
         Err(Stop::Return) => panic!("refsem: stray RETURN flow"),
         Err(Stop::ExitProc) => panic!("refsem: EXIT outside procedure"),
-        Err(Stop::ResumeSame) | Err(Stop::ResumeNext) => panic!("refsem: stray RESUME flow"),
+        Err(Stop::ResumeSame) | Err(Stop::ResumeNext) | Err(Stop::ResumeTo(_)) => panic!("refsem: stray RESUME flow"),
     };
     let mut globals = BTreeMap::new();
     for (i, v) in prog.vars.iter().enumerate() {
